@@ -112,8 +112,29 @@ def make_cases(ctx, tzrows):
                 s_, ht, hs, flw = render(fam, dt, fl, rng)
                 cases.append({"kind": "c01", "fam": fam, "dt": dt, "ht": ht, "hs": hs, "fl": flw, "s": s_,
                               "kw": {"languages": ["en"]}, "settings": {"RELATIVE_BASE": [2021, 6, 15, 12, 0, 0, 0]}, "api": "ddp", "probe": True})
-    # ---- epoch numbers
+    # ---- the written wall clock is returned as written whatever TIMEZONE is: wall times that do not exist (spring-forward
+    # gap) or exist twice (fold) in a DST zone are where a zone-aware round trip would move them
     import pytz
+    for z in ["America/New_York", "Europe/Berlin", "Australia/Lord_Howe", "America/St_Johns", "Pacific/Auckland", "America/Sao_Paulo", "Asia/Tehran", "Europe/London"]:
+        tz = pytz.timezone(z)
+        tt = [(t, i) for i, t in enumerate(tz._utc_transition_times) if 1971 <= t.year <= 2036 and i > 0]
+        for t, i in rng.sample(tt, min(len(tt), 3 if ctx.quick() else 12)):
+            before = tz._transition_info[i - 1][0]
+            after = tz._transition_info[i][0]
+            lo, hi = sorted([t + before, t + after])
+            if hi - lo < datetime.timedelta(minutes=2):
+                continue
+            w = (lo + (hi - lo) / 2).replace(microsecond=0)          # inside the gap (or the fold)
+            for w_ in (w, lo, hi - datetime.timedelta(seconds=1), lo - datetime.timedelta(hours=1)):
+                dt = [w_.year, w_.month, w_.day, w_.hour, w_.minute, w_.second, 0]
+                for fam in rng.sample(range(1, 15), 3):
+                    s_, ht, hs, flw = render(fam, dt, 0, rng)
+                    st = {"RELATIVE_BASE": [2021, 6, 15, 12, 0, 0, 0], "TIMEZONE": z}
+                    if rng.random() < 0.3:
+                        st["PREFER_DATES_FROM"] = rng.choice(["past", "future"])
+                    cases.append({"kind": "c01", "fam": fam, "dt": dt, "ht": ht, "hs": hs, "fl": flw, "s": s_,
+                                  "kw": {"languages": ["en"]} if rng.random() < 0.7 else {}, "settings": st, "api": "ddp", "probe": True})
+    # ---- epoch numbers
     zones = ["UTC", "Asia/Kolkata", "America/New_York", "Europe/Berlin", "Australia/Lord_Howe", "Pacific/Apia",
              "Asia/Kathmandu", "America/St_Johns", "Pacific/Kiritimati", "Africa/Nairobi"]
     # TIMEZONE given as a library offset / abbreviation (resolved through the library's own table)
